@@ -254,6 +254,30 @@ class Fn:
             for e in b["ev"]:
                 yield b, e
 
+    def flow_events(self):
+        """events in an execution-compatible order (reverse post-order of the CFG from the entry)"""
+        seen = set()
+        post = []
+        stack = [(self.entry, iter([s for s in (self.blocks[self.entry].get("succ") or ()) if s is not None]))]
+        seen.add(self.entry)
+        while stack:
+            bid, it = stack[-1]
+            nxt = None
+            for s in it:
+                if s not in seen:
+                    nxt = s
+                    break
+            if nxt is None:
+                post.append(bid)
+                stack.pop()
+            else:
+                seen.add(nxt)
+                stack.append((nxt, iter([s for s in (self.blocks[nxt].get("succ") or ()) if s is not None])))
+        for bid in reversed(post):
+            b = self.blocks[bid]
+            for e in b["ev"]:
+                yield b, e
+
     def __repr__(self):
         return "<Fn %d %s>" % (self.id, self.q)
 
